@@ -2,7 +2,7 @@ CONSTANTS
   MaxSize = 16
   Workers = {1, 2, 3, 4}
   MaxErrors = 1000000
-  ErrKinds = {"429", "5xx", "net", "unavail", "400"}
+  ErrKinds = {"429", "5xx", "net", "unavail", "deadline", "canceled", "400"}
   KeepHist = FALSE
   Configs = {}
 INIT TraceInit
